@@ -593,6 +593,33 @@ def uf_family(run, r, n):
         for rule in ('verit_sum_simplify', 'verit_prod_simplify', 'verit_minus_simplify', 'verit_unary_minus_simplify', 'verit_div_simplify'):
             for rhs in acands[:5]:
                 offer(rule, [Eq(e, rhs)], [], 'guessed')
+        # products / sums of numerals and atoms in which an atom is repeated; right sides: the collected form, and the same
+        # with a repeated atom dropped, duplicated once more, another coefficient, the atoms permuted
+        vs_T = iv if T == IntType else rv
+        k_at = r.choice([2, 3])
+        atoms_ = [r.choice(vs_T[:2]) for _ in range(k_at)] if r.random() < 0.7 else r.sample(vs_T, min(k_at, len(vs_T)))
+        consts_ = [r.choice([2, 3, -1, 1]) for _ in range(r.choice([1, 2]))]
+        for op, unit, rule in ((kterm.times(T), 1, 'verit_prod_simplify'), (kterm.plus(T), 0, 'verit_sum_simplify')):
+            items_ = [num(c0) for c0 in consts_] + list(atoms_)
+            r.shuffle(items_)
+
+            def fold_(xs_):
+                t_ = xs_[0]
+                for u_ in xs_[1:]:
+                    t_ = op(t_, u_)
+                return t_
+            cval = unit
+            for c0 in consts_:
+                cval = cval * c0 if unit == 1 else cval + c0
+            in_order = [u_ for u_ in items_ if not u_.is_number()]
+            variants = [in_order, in_order[:-1], in_order[1:], in_order + in_order[:1], list(reversed(in_order)), sorted(set(in_order), key=repr)]
+            for atoms_v in variants:
+                for cv in (cval, cval + 1):
+                    if not atoms_v:
+                        continue
+                    offer(rule, [Eq(fold_(items_), fold_([num(cv)] + atoms_v))], [], 'guessed')
+                    if (unit == 1 and cv == 1) or (unit == 0 and cv == 0):
+                        offer(rule, [Eq(fold_(items_), fold_(atoms_v))], [], 'guessed')
         # shapes of the unary-minus rule: -(-t), -(a - b), -(numeral)
         a0, b0 = aexp(T, 1), aexp(T, 1)
         for lhs_u, rhss_u in ((kterm.uminus(T)(kterm.uminus(T)(a0)), [a0, kterm.uminus(T)(a0), num(0)]),
